@@ -107,8 +107,9 @@ def r1b_mechanism(rep, ctx):
             facts = cfg.facts_at(r)
             if not any((not val) and _is_attr_term(res, e, "default_category") for e, val in facts):
                 problems.append("the quantity-type fallback is not reserved for units without default_category")
-            if not any(val and isinstance(e, ast.Compare) and isinstance(e.ops[0], ast.In)
-                       and any(s == ("field", "categories_to_quantity_types") for s in walk(res.term(e.comparators[0]))) for e, val in facts):
+            from ..facts import norm_fact
+            nf = [norm_fact(e, val) for e, val in facts]
+            if not any(k == "in" and pos and any(s == ("field", "categories_to_quantity_types") for s in walk(res.term(r_))) for k, l_, r_, pos in nf):
                 problems.append("the quantity-type fallback is returned without checking that such a category is registered")
     rep.check(not problems, "C19.R1b", key, "returns info.default_category when set, else info.quantity_type when it is a registered category",
               "; ".join(sorted(set(problems))), fn=fn)
